@@ -4,6 +4,7 @@ import (
 	"encoding/json"
 	"encoding/xml"
 	"fmt"
+	"net/http"
 	"runtime"
 	"sort"
 	"strconv"
@@ -201,7 +202,7 @@ func orderedSubsets(pool []string, max int, r *core.Rand, limit int) [][]string 
 
 func c05(ctx *core.Ctx) {
 	quietLogs()
-	ctx.Rule("routes with every ordered Produces list (size 1-3) over the registered media types x generated Accept headers (1-18 ranges, now and then 33, 65 or 100, q-values, parameters before/after q, */*, foreign types, absent, two header fields) x default response content type {unset, JSON, XML} x registered-writer set {built-in, +text/plain, +application/x-verif, +8 types registered concurrently, +types registered with a parameter of their own (charset, version)}; handler calls WriteEntity / WriteHeaderAndEntity; every route is registered for GET, HEAD, PUT, DELETE, PATCH and POST (requests rotate over them); long headers whose producible ranges only come at the very end. Oracle: reference ranker; SP-decorated spelling and 3 repetitions must give the same choice. Non-trivial = an admitted request that wrote an entity; distinct by (writer set, default, produces list, winning rule: exact/star/absent, number of ranges bucket, decorated).")
+	ctx.Rule("routes with every ordered Produces list (size 1-3) over the registered media types x generated Accept headers (1-18 ranges, now and then 33, 65 or 100, q-values, parameters before/after q, */*, foreign types, absent, two header fields) x default response content type {unset, JSON, XML} x registered-writer set {built-in, +text/plain, +application/x-verif, +8 types registered concurrently, +types registered with a parameter of their own (charset, version)}; handler calls WriteEntity / WriteHeaderAndEntity; every route is registered for GET, HEAD, PUT, DELETE, PATCH and POST (requests rotate over them); every third route also declares media types without a registered writer; every fourth request goes through a container with an adapted pass-through middleware; long headers whose producible ranges only come at the very end. Oracle: reference ranker; SP-decorated spelling and 3 repetitions must give the same choice. Non-trivial = an admitted request that wrote an entity; distinct by (writer set, default, produces list, winning rule: exact/star/absent, number of ranges bucket, decorated).")
 	ctx.Assume("Accept grammar: full media types and */*, well-formed q-values (malformed q and type/* ranges are outside the property)",
 		"with two Accept header fields only the reference-free clauses (Content-Type in Produces, never 406) are judged")
 	defer restful.DefaultResponseContentType("")
@@ -293,9 +294,20 @@ func c05(ctx *core.Ctx) {
 			// one container, one route per Produces list
 			c := restful.NewContainer()
 			ws := new(restful.WebService).Path("/n")
+			fulls := make([][]string, len(lists))
 			for li, l := range lists {
 				l := l
 				li := li
+				// every third route also declares representations nobody has registered a writer for (yet): they are skipped
+				full := append([]string{}, l...)
+				if li%3 == 1 {
+					at := r.Intn(len(full) + 1)
+					full = append(full[:at:at], append([]string{r.Pick([]string{"application/vnd.verif+json", "application/vnd.verif+xml", "text/csv"})}, full[at:]...)...)
+					if r.Chance(1, 2) {
+						full = append(full, "application/vnd.other+json")
+					}
+				}
+				fulls[li] = full
 				handler := func(req *restful.Request, resp *restful.Response) {
 					if o := rt.ObsOf(req.Request); o != nil {
 						o.Invokes = append(o.Invokes, rt.Invoke{RID: li})
@@ -312,10 +324,16 @@ func c05(ctx *core.Ctx) {
 				}
 				// the same resource under every method: what is negotiated does not depend on the method
 				for _, m := range []string{"GET", "HEAD", "PUT", "DELETE", "PATCH", "POST"} {
-					ws.Route(ws.Method(m).Path(fmt.Sprintf("/p%d", li)).Produces(l...).To(handler))
+					ws.Route(ws.Method(m).Path(fmt.Sprintf("/p%d", li)).Produces(full...).To(handler))
 				}
 			}
 			c.Add(ws)
+			// the same service behind an adapted net/http middleware (pass-through): negotiation is untouched by it
+			cA := restful.NewContainer()
+			cA.Filter(restful.HttpMiddlewareHandlerToFilter(func(next http.Handler) http.Handler {
+				return http.HandlerFunc(func(w http.ResponseWriter, r *http.Request) { next.ServeHTTP(w, r) })
+			}))
+			cA.Add(ws)
 			for li, l := range lists {
 				caseIdx++
 				if ctx.Skip(caseIdx) {
@@ -360,7 +378,11 @@ func c05(ctx *core.Ctx) {
 									out.Panicked, out.Panic = true, fmt.Sprint(p)
 								}
 							}()
-							c.Dispatch(rec, hr)
+							if h%4 == 3 {
+								cA.Dispatch(rec, hr)
+							} else {
+								c.Dispatch(rec, hr)
+							}
 						}()
 						out.Status = rec.Code()
 						return out
@@ -401,7 +423,7 @@ func c05(ctx *core.Ctx) {
 						continue
 					}
 					inProduces := false
-					for _, p := range l {
+					for _, p := range l { // l: the declared types that have a registered writer
 						if p == ct {
 							inProduces = true
 						}
